@@ -431,5 +431,13 @@ def ser (e : Env) (t : RTy) (v : Val) : D Json :=
 /-- `to_value(from_value(j))` -/
 def roundtrip (e : Env) (t : RTy) (j : Json) : D Json := do ser e t (← de e t j)
 
+-- realise the unfolding lemmas of the fuel-indexed functions here, once: two importers that realise
+-- them independently could not be imported together
+theorem dePath_eq_def_realised : True := by
+  have _h1 := @dePath.eq_def
+  have _h2 := @deFlat.eq_def
+  have _h3 := @serPath.eq_def
+  trivial
+
 end Serde
 end GqlVerif
